@@ -302,3 +302,81 @@ def dmrg_gate_everywhere(ctx) -> None:
     ctx.ob("CONV-gate", "DMRG timestep_complete call sites", K.module.relpath + f":{K.node.lineno}", ok,
            "within DMRGBackendImpl, timestep_complete is called from sweep_complete only" if ok else
            f"within DMRGBackendImpl, timestep_complete is called from {sorted(sites)}")
+
+
+def scaling(ctx) -> None:
+    """Scaling an MPS keeps the canonical form it claims: scale_factors multiplies exactly the factor `which`, and
+    MPS.__rmul__ scales the factor at the orthogonality centre it passes on (norm() and expect_batch() read the state
+    off the centre factor, so scaling another factor while keeping the claim makes both return unscaled values)."""
+    prog = ctx.prog
+    sf = prog.func("emu_mps.algebra.scale_factors")
+    it0 = Interp(prog, None, inline=lambda c, r, d: False)
+    rets = [p for p in it0.run(sf) if p.status == "return"]
+    ok = False
+    got = "?"
+    if len(rets) == 1:
+        r = strip_typed(rets[0].retval)
+        got = show(r)[:80]
+        if r[0] == "comp" and r[1] == "list" and len(r[2]) == 1 and len(r[3]) == 1:
+            el = strip_typed(r[2][0])
+            gen = r[3][0]
+            src = strip_typed(gen[0])
+            over_all = src[0] == "call" and src[1] == "enumerate" and len(src[2]) == 1 and \
+                strip_typed(src[2][0]) == ("param", sf.qualname, "factors") and not gen[1]
+            if over_all and el[0] == "ifexp":
+                c, a, b = (strip_typed(x) for x in el[1:4])
+                idx = lambda t: t[0] == "unpack" and t[2] == 0   # noqa: E731
+                val = lambda t: t[0] == "unpack" and t[2] == 1   # noqa: E731
+                which = ("param", sf.qualname, "which")
+                sel = c[0] == "cmp" and c[1] == "==" and ((idx(strip_typed(c[2])) and strip_typed(c[3]) == which) or
+                                                          (idx(strip_typed(c[3])) and strip_typed(c[2]) == which))
+                scal = ("param", sf.qualname, "scalar")
+                mul = a[0] == "bin" and a[1] == "Mult" and ((strip_typed(a[2]) == scal and val(strip_typed(a[3]))) or
+                                                            (strip_typed(a[3]) == scal and val(strip_typed(a[2]))))
+                ok = sel and mul and val(b)
+    ctx.ob("CENTER-scale", "scale_factors scales one factor", sf.loc(), ok,
+           "scale_factors returns every factor unchanged except factors[which], which is multiplied by the scalar" if ok else
+           f"scale_factors no longer returns [scalar·f if i == which else f for every factor]: {got}")
+    M = prog.cls("emu_mps.mps.MPS")
+    f = M.methods["__rmul__"]
+    it = Interp(prog, M, inline=lambda c, r, d: False)
+    n = 0
+    bad = []
+    for p in it.run(f):
+        if p.status != "return":
+            continue
+        news = [e for e in p.events if e.kind == "call" and e.name == "emu_mps.mps.MPS"]
+        for e in news:
+            n += 1
+            c = strip_typed(e.args.get("orthogonality_center", ("const", None)))
+            fac = strip_typed(e.args.get("factors", ("const", None)))
+            if c == ("const", None):
+                continue  # no claim
+            if not (fac[0] == "call" and fac[1] == "emu_mps.algebra.scale_factors"):
+                bad.append(f"factors {show(fac)[:50]} are not produced by scale_factors")
+                continue
+            sc = [x for x in p.events if x.kind == "call" and x.name == "emu_mps.algebra.scale_factors"]
+            w = strip_typed(sc[-1].args.get("which")) if sc else None
+            base = strip_typed(sc[-1].args.get("factors")) if sc else None
+            if base != ("attr", SELF, "factors") or c != ("attr", SELF, "orthogonality_center"):
+                bad.append(f"result claims centre {show(c)[:40]} over factors scaled from {show(base)[:40] if base else '?'}")
+                continue
+            none_here = any(_is_none_test(cc, c) is not None and _is_none_test(cc, c) == (not t) for cc, t in p.cond_log[: sc[-1].ncond])
+            good = w == c or none_here or (w[0] == "ifexp" and _is_none_test(strip_typed(w[1]), c) is False and strip_typed(w[2]) == c) \
+                or (w[0] == "ifexp" and _is_none_test(strip_typed(w[1]), c) is True and strip_typed(w[3]) == c)
+            if not good:
+                bad.append(f"scales factor {show(w)[:50]} but passes on the orthogonality centre {show(c)[:40]}")
+    ctx.require(n >= 1, "CENTER-scale: MPS.__rmul__ builds no MPS")
+    ctx.ob("CENTER-scale", "MPS.__rmul__ scales the centre", f.loc(), not bad,
+           "the scalar multiplies the factor at the orthogonality centre that the result keeps (any factor when there is none)"
+           if not bad else
+           f"MPS.__rmul__ {bad[0]}: the other factors stay isometric only around the claimed centre, so norm() and "
+           f"expect_batch() of the result ignore the scalar whenever the centre is not that site")
+
+
+def _is_none_test(c, subject):
+    """True for `subject is None`, False for `subject is not None`, None otherwise."""
+    c = strip_typed(c)
+    if c[0] == "cmp" and c[1] in ("is", "isnot", "==", "!=") and strip_typed(c[2]) == subject and strip_typed(c[3]) == ("const", None):
+        return c[1] in ("is", "==")
+    return None
